@@ -362,6 +362,8 @@ def evaluate(case, ctx):
         if "AssertionError" in ref.stderr and "as_json" in ref.stderr:
             viols.append(C.V("json-assertion", "serial: --json crashed: assert written_reads + filtered_total == self.n"))
             return viols
+        if "Too many open files" in ref.stderr and ref.env_fired.get("emfile"):
+            return [C.V("output-missing", f"serial: the run gave up at the descriptor limit (EMFILE) instead of raising it: {ref.stderr[-200:]!r}")]
         raise engine.Discard("reference-run-failed")
     viols += judge(case, ref, "serial")
     if any(v["clause"] == "output-unreadable" for v in viols):
@@ -414,7 +416,7 @@ def main(seed, tier, args):
     import sys
 
     n = args.cases or (3000 if tier == "quick" else 60000)
-    budget = args.budget or (100 if tier == "quick" else 900)
+    budget = args.budget or (150 if tier == "quick" else 900)
     rc, ev = engine.run_batch(sys.modules[__name__], seed, tier, n, budget)
     c = ev["coverage"]
     print(f"C04 {tier}: {c['evaluations']} cases judged, {c['distinct_nontrivial']} distinct non-trivial, discards {c['discards_by_reason']}, wall {ev['wall_s']}s")
